@@ -4,7 +4,7 @@
    rev_twos_comp_repr / const_postchecks are Gen/Conv.v, regenerated from pyrtl's source on every
    run; infer / verilog_parse / formatted_* / bitpattern_* are the hand models of Conv/Str.v. *)
 From PyRTL Require Import Base.PyZ Conv.ConvBase Gen.Conv Conv.Spec Conv.Str Conv.ConvProofs Conv.StrProofs
-  Conv.FmtProofs Conv.PatProofs.
+  Conv.FmtProofs Conv.PatProofs Conv.ParseProofs.
 
 (* --- infer_val_and_bitwidth on integers: accepts exactly the representable triples --- *)
 Theorem C16_int_accepts_iff_representable : forall v w signed,
@@ -110,6 +110,61 @@ Theorem C16_verilog_str_signed_rejected : forall s passed,
 Proof. exact verilog_str_signed_rejected. Qed.
 Print Assumptions C16_verilog_str_signed_rejected.
 
+(* --- the parser model itself: parse (print ...) for EVERY width, radix letter and value ---
+   verilog_print neg w letter body = [-]<decimal w>'[letter]<body>.  The body may contain underscores
+   and upper-case digits: what counts is int(., radix) of its lower-cased, underscore-free text.  `radix_of` says the
+   letter is a key of the generated `bases` table (any case), or absent with a body starting with a
+   decimal digit (radix = the source's default). *)
+Theorem C16_verilog_parse_print : forall neg w letter body base v,
+  0 <= w -> radix_of letter body base -> ~ In 39 body ->
+  py_int base (filter (fun x => negb (x =? verilog_ignored_char)) (map lower body)) = Some v ->
+  verilog_parse (verilog_print neg w letter body) = Ok (neg, w, v).
+Proof. exact verilog_parse_print. Qed.
+Print Assumptions C16_verilog_parse_print.
+
+Theorem C16_verilog_parse_print_digits : forall neg w letter base v,
+  0 <= w -> 0 <= v ->
+  (match letter with Some c => radix_letter c base | None => base = verilog_default_base end) ->
+  verilog_parse (verilog_print neg w letter (nat_str base v)) = Ok (neg, w, v).
+Proof. exact verilog_parse_print_digits. Qed.
+Print Assumptions C16_verilog_parse_print_digits.
+
+(* hence infer_val_and_bitwidth on every printed constant, in closed form: unsigned accepted iff
+   v < 2^w with value v; negated accepted iff v = 0 or v < 2^(w-1) with value 2^w - v (the excluded
+   v = 2^(w-1) is F13) *)
+Theorem C16_verilog_str_value : forall neg w letter base v passed,
+  1 <= w -> 0 <= v ->
+  (match letter with Some c => radix_letter c base | None => base = verilog_default_base end) ->
+  passed = None \/ passed = Some w ->
+  res_opt (infer (RStr (verilog_print neg w letter (nat_str base v))) passed false)
+  = if neg
+    then (if v =? 0 then Some (0, w) else if v <? 2 ^ (w - 1) then Some (2 ^ w - v, w) else None)
+    else (if v <? 2 ^ w then Some (v, w) else None).
+Proof. exact verilog_str_value. Qed.
+Print Assumptions C16_verilog_str_value.
+
+(* --- every accepted input (int, bool or string) yields a width >= 1 and an in-range value --- *)
+Theorem C16_infer_result_in_range : forall r bw signed n w,
+  infer r bw signed = Ok (n, w) -> 1 <= w /\ 0 <= n < 2 ^ w.
+Proof. exact infer_ok_range. Qed.
+Print Assumptions C16_infer_result_in_range.
+
+(* --- Const = _validate_bitwidth on the argument, then infer_val_and_bitwidth; the post-checks and
+   the second validation in WireVector.__init__ never change the outcome --- *)
+Theorem C16_const_equals_validate_then_infer : forall r bw signed,
+  const_model r bw signed =
+  match validate_bitwidth bw with
+  | Err k => Err (100 + k)
+  | Ok _ => infer r bw signed
+  end.
+Proof. exact const_model_eq. Qed.
+Print Assumptions C16_const_equals_validate_then_infer.
+
+Theorem C16_validate_bitwidth_spec : forall bw,
+  is_ok (validate_bitwidth bw) = match bw with None => true | Some b => 1 <=? b end.
+Proof. exact validate_bitwidth_spec. Qed.
+Print Assumptions C16_validate_bitwidth_spec.
+
 (* --- val_to_signed_integer inverts the signed encoding --- *)
 Theorem C16_val_to_signed_inverts : forall v w, representable v w true ->
   val_to_signed_integer (v mod 2 ^ w) w = Ok v.
@@ -195,6 +250,22 @@ Theorem C16_bitpattern_roundtrip_nonneg : forall p fields v,
 Proof. exact bitpattern_roundtrip_nonneg. Qed.
 Print Assumptions C16_bitpattern_roundtrip_nonneg.
 
+(* the value-level match: matched iff every '0' position holds 0 and every '1' position holds 1 *)
+Theorem C16_match_bits_spec : forall v prev i,
+  match_bits prev v i = true <->
+  (forall j c, nth_error prev j = Some c ->
+     (c = 48 -> Z.testbit v (i + Z.of_nat j) = false) /\ (c = 49 -> Z.testbit v (i + Z.of_nat j) = true)).
+Proof. exact match_bits_spec. Qed.
+Print Assumptions C16_match_bits_spec.
+
+(* the converse: packing the fields decoded from any matching value gives that value back *)
+Theorem C16_bitpattern_match_then_pack : forall p v,
+  p <> [] -> nospace p = p -> ~ In 63 p -> 0 <= v < 2 ^ Z.of_nat (length p) ->
+  fst (match_bitpattern v p) = true ->
+  bitpattern_to_val p (snd (match_bitpattern v p)) = Ok v.
+Proof. exact match_then_pack. Qed.
+Print Assumptions C16_bitpattern_match_then_pack.
+
 (* --- non-vacuity --- *)
 Example C16_example_infer :
   infer (RInt (-3)) None true = Ok (5, 3) /\ infer (RInt (-8)) (Some 4) false = Ok (8, 4)
@@ -223,4 +294,14 @@ Example C16_example_bitpattern :
   bitpattern_to_val [98; 97; 48; 97; 98] [3; 1] = Ok 19 /\ nospace [98; 97; 48; 97; 98] = [98; 97; 48; 97; 98]
   /\ match_bitpattern 19 [98; 97; 48; 97; 98] = (true, [3; 1])
   /\ match_bitpattern 23 [98; 97; 48; 97; 98] = (false, [3; 1]).
+Proof. vm_compute. repeat split; reflexivity. Qed.
+
+(* "-12'H0f_F" is verilog_print true 12 (Some 'H') "0f_F"; 'H' is a radix letter for 16; it parses
+   to (neg, 12, 255) and infer gives 2^12 - 255 *)
+Example C16_example_print :
+  verilog_print true 12 (Some 72) [48; 102; 95; 70] = [45; 49; 50; 39; 72; 48; 102; 95; 70] /\
+  radix_letter 72 16 /\
+  verilog_parse [45; 49; 50; 39; 72; 48; 102; 95; 70] = Ok (true, 12, 255) /\
+  infer (RStr [45; 49; 50; 39; 72; 48; 102; 95; 70]) None false = Ok (3841, 12) /\
+  const_model (RStr [45; 49; 50; 39; 72; 48; 102; 95; 70]) (Some 12) false = Ok (3841, 12).
 Proof. vm_compute. repeat split; reflexivity. Qed.
